@@ -43,7 +43,7 @@ P["C14"] = dict(
          "mapACPITable call that produced it, every possibly-nil error return of mapACPITable crosses validTable(header, header.Length)==true "
          "(per phi edge), bad tables log and continue, root pointer returns cross a checksum over exactly the structure's bytes on the right "
          "revision side, entry width/shift/step agree per arm, mapping order and DSDT pointer selection. Found and fixed F8 (40-byte checksum "
-         "of the 36-byte RSDP). Scan completeness over all positions and table contents are not decided.",
+         "of the 36-byte RSDP). Scan completeness over all positions and table contents are not decided. Round 5: the scan window's two variables (found by role) are initialised to 0xe0000 and 0xfffff.",
     technique="SSA dominance/cut queries with per-phi-edge nil analysis + constant folding of struct sizes",
     ref="DESIGN.md section 3, C14",
 )
@@ -81,7 +81,7 @@ P["C01"] = dict(
          "publication after success, availability guard on every visitor store, identical inward rounding at the three region-to-frame sites "
          "(polynomial normal forms with cdiv/fdiv atoms) and outward rounding of the kernel range, allocation returns exactly the frame whose bit it "
          "tested and set with the same bit encoding as mark/free, bits cleared only by free/mark, allocator variable ownership. Histories (who holds "
-         "which frame over time) and pool-boundary arithmetic for a kernel spanning pools are not decided. Added: (R4) alloc-scan-complete: the loops that advance the bitmap word index and the pool index in AllocFrame start at 0 (a scan starting at a remembered position misses frames freed behind it).",
+         "which frame over time) and pool-boundary arithmetic for a kernel spanning pools are not decided. Added: (R4) alloc-scan-complete: the loops that advance the bitmap word index and the pool index in AllocFrame start at 0 (a scan starting at a remembered position misses frames freed behind it). Round 5: every index of the bitmap word that AllocFrame looks at is the counter of a loop around it, from 0 (no remembered or wrapping scan position).",
     technique="SSA dominance + must-pass-through ordering + polynomial/rounding normal forms + writers-of",
     ref="DESIGN.md section 3, C01",
 )
@@ -100,7 +100,7 @@ P["C03"] = dict(
     text="Accounting structure: bitmap capacity, free counter, totals and both reservation passes are the same symbolic frame count n (found and "
          "fixed F1, where they were n-1), free's error contract (guards dominate every store, distinct errors, nothing modified before a rejection), "
          "every bit change paired with exactly one update of each counter on every path, and error propagation of every *kernel.Error call result "
-         "in the init chain. 'Never crashes' in general and counts over histories are not decided.",
+         "in the init chain. 'Never crashes' in general and counts over histories are not decided. Round 5: the two passes of setupPoolBitmaps select the same regions (pass-agreement).",
     technique="polynomial/rounding normal forms (symbolic sizes) + SSA dominance + path pairing",
     ref="DESIGN.md section 3, C03",
 )
@@ -111,7 +111,7 @@ P["C04"] = dict(
          "flush on the inactive scenario and no entry write on the active scenario (the two tests are correlated, infeasible paths dropped), new "
          "levels allocated-then-zeroed with the allocation error returned untouched, error cell returned unmodified, region helpers map exactly "
          "cdiv(size,4096) pages with page and frame advancing together. The recursive-mapping arithmetic of walk and 'other pages unchanged' are not decided. "
-         "Added: (R6) the page count of MapRegion/IdentityMapRegion in induction form (trip count = cdiv(size,4096), page and frame advance by one) and no unguarded unsigned subtraction in it; (R7) paging geometry constants and the level/table loop of walk.",
+         "Added: (R6) the page count of MapRegion/IdentityMapRegion in induction form (trip count = cdiv(size,4096), page and frame advance by one) and no unguarded unsigned subtraction in it; (R7) paging geometry constants and the level/table loop of walk. Round 5: no way round the page loop of MapRegion / IdentityMapRegion misses the map call.",
     technique="SSA path ordering + correlated-condition scenario enumeration + polynomial normal forms",
     ref="DESIGN.md section 3, C04",
 )
@@ -142,7 +142,7 @@ P["C11"] = dict(
          "entries start with a NameString, deferred ones with PkgLen, Method's flags are attached argument #1). Computed by constant folding of the "
          "program's own lookup functions through go/ssa control flow. Scoping, relocation, forward references and multi-table loads - the "
          "behavioural core of C11 - are NOT decided; the size of this claim is small and stated as such. "
-         "Added: (R4) every Parser field written while parsing is re-initialised at the start of each table; (R5) every site that reads a method's argument count uses flags & 7. (R6) the bit offset stored for a field unit is a variable of the element loop that starts at 0 and only grows by parsed package lengths. (R7) both resolve passes find the scope block of a named target by scanning its children for the scope-block opcode, not at a fixed argument position.",
+         "Added: (R4) every Parser field written while parsing is re-initialised at the start of each table; (R5) every site that reads a method's argument count uses flags & 7. (R6) the bit offset stored for a field unit is a variable of the element loop that starts at 0 and only grows by parsed package lengths. (R7) both resolve passes find the scope block of a named target by scanning its children for the scope-block opcode, not at a fixed argument position. Round 5: parseDeferredBlocks descends into every child of every object (deferred-all-children).",
     technique="exhaustiveness / table agreement by constant folding of SSA over finite domains",
     ref="DESIGN.md section 3, C11",
 )
@@ -162,7 +162,7 @@ P["C13"] = dict(
          "enumerated idioms (mutual link, splice-in, guarded bypass, reset, free-list push/pop) with its partner on every path; parent first/last "
          "indices and the node's parent index are maintained; free-list reuse before growth, refusal to free objects with children, freed slots "
          "unreachable through ObjectAt. Lookup semantics of Find and the induction over histories are not decided. "
-         "Added: (R4) dispatch structure of ObjectTree.Find (absolute, caret and multi-segment names use the downward-only lookup; single segments walk the parent chain comparing all name bytes). (R5) every element access and re-slicing of the path expression (and of an object's name) in Find and findRelative is proved in range by linear reasoning over the dominating tests; link-store forwarding is by value identity (a link re-read after it was overwritten is another value). Also (R4): the prefix-skipping loop of findRelative stops exactly at 'A'..'Z' and '_' (decided for all 256 byte values).",
+         "Added: (R4) dispatch structure of ObjectTree.Find (absolute, caret and multi-segment names use the downward-only lookup; single segments walk the parent chain comparing all name bytes). (R5) every element access and re-slicing of the path expression (and of an object's name) in Find and findRelative is proved in range by linear reasoning over the dominating tests; link-store forwarding is by value identity (a link re-read after it was overwritten is another value). Also (R4): the prefix-skipping loop of findRelative stops exactly at 'A'..'Z' and '_' (decided for all 256 byte values). Round 5: findRelative never calls Find (the downward lookup cannot fall back to the upward search).",
     technique="writers-of ownership + idiom-table pairing on all CFG paths + SSA dominance",
     ref="DESIGN.md section 3, C13",
 )
@@ -173,7 +173,7 @@ P["C15"] = dict(
          "integer type switch over all 11 built-in integer types with matching signedness (found and fixed F2); constant relations of the scratch "
          "buffer (single initialiser of maxBufSize+1 bytes, clamped width, guarded digit loop); argument bound test and the three markers. Exact "
          "output text and 'never panics' in general are not decided. "
-         "Added: (R5) every digit edge into the width variable carries 10*w + (ch - '0'). Also (R4): no function of the formatter ranges over a string (text goes out byte for byte, not as UTF-8 runes); the surplus-argument loop runs len(args) minus the arguments consumed times.",
+         "Added: (R5) every digit edge into the width variable carries 10*w + (ch - '0'). Also (R4): no function of the formatter ranges over a string (text goes out byte for byte, not as UTF-8 runes); the surplus-argument loop runs len(args) minus the arguments consumed times. Round 5: no return of Fprintf gets round the surplus-argument loop.",
     technique="effect analysis (go build -gcflags=-m escape diagnostics + allocating SSA operations over the call closure) + type-switch exhaustiveness",
     ref="DESIGN.md section 3, C15",
     note_extra="The escape analysis is the Go compiler's own (go build -gcflags=-m over /repo/kernel's working tree, offline); it compiles and does not execute the kernel.",
@@ -184,7 +184,7 @@ P["C19"] = dict(
          "reachable only from their guarded entry point, the caller-supplied Fill rectangle never enters arithmetic before being bounded (found and "
          "fixed F5), all colour-depth switches partition identically and write no more bytes per pixel than bytesPerPixel, rows are addressed only "
          "through fbOffset (logo area). Pixel-exact rendering, padding bytes and the glyph walk's memory safety are not decided. "
-         "Added: (R6) VesaFbConsole.Scroll moves by lines*GlyphHeight*pitch bytes and the fill painters receive the clipped cell rectangle scaled by the glyph size. Also (R6): each fill painter paints pH rows from fbOffset(pX, pY) in steps of the pitch, each row pW pixels of the pixel size, pW and pH being the values it was given, with no early exit. The cell grid is width/GlyphWidth by (height-offsetY)/GlyphHeight and the framebuffer slice has length and capacity height*pitch.",
+         "Added: (R6) VesaFbConsole.Scroll moves by lines*GlyphHeight*pitch bytes and the fill painters receive the clipped cell rectangle scaled by the glyph size. Also (R6): each fill painter paints pH rows from fbOffset(pX, pY) in steps of the pitch, each row pW pixels of the pixel size, pW and pH being the values it was given, with no early exit. The cell grid is width/GlyphWidth by (height-offsetY)/GlyphHeight and the framebuffer slice has length and capacity height*pitch. Round 5: in Write every call of a function that (transitively) stores into a framebuffer is a paint site under the four range tests; every cell store of VgaTextConsole.Fill is inside the column loop inside the row loop.",
     technique="SSA dominance + who-may-call + unbounded-argument wrap rule + switch partition agreement + polynomial forms",
     ref="DESIGN.md section 3, C19",
 )
@@ -193,7 +193,7 @@ P["C20"] = dict(
     text="Reproducibility and selection structure of the redirect scan: no append to the table or the file list under a map range (found and fixed "
          "F6), no goroutines, the scanned file set and the entry guards (FuncDecl, Doc, directive prefix) dominate the append, one entry per "
          "annotation line in source order, the recorded symbols' data flow, and order preservation through CompleteRedirects / NUM_REDIRECTS / main. "
-         "That the tool finds every annotation of every tree (go/parser behaviour) is not decided. Added: (R3) a new SymbolRedirect is allocated per annotation inside the comment loop and that record is what is appended; the image writes are recognised as binary.Write or PutUint64 + Write, little-endian. The Walk callback returns only nil or the error it was handed (no SkipDir / private pruning).",
+         "That the tool finds every annotation of every tree (go/parser behaviour) is not decided. Added: (R3) a new SymbolRedirect is allocated per annotation inside the comment loop and that record is what is appended; the image writes are recognised as binary.Write or PutUint64 + Write, little-endian. The Walk callback returns only nil or the error it was handed (no SkipDir / private pruning). Round 5: no way round the file loop of FindRedirects misses parser.ParseFile.",
     technique="order-sensitivity rule (map range feeding an ordered sink) + SSA dominance + value-flow matching",
     ref="DESIGN.md section 3, C20",
 )
@@ -213,7 +213,7 @@ P["C10"] = dict(
     text="Decoding structure of the multiboot reader: exact complement property of the type normalisation decided for all 2^32 values through "
          "interval representatives (found and fixed F3), strides taken from the block's own headers, first-match / end-tag exits of the tag scan, "
          "payload dereferenced only when present, provenance of every integer that becomes a pointer, non-empty ELF sections and RGB-only colour info. "
-         "Exact decoding of all blocks, reads past the block's end and command-line splitting are not decided. Added: every iteration of the entry loop reaches the visitor (no entry is skipped) and ELF section headers are read only inside the loop bounded by numSections (nothing behind an empty table is touched); the strides are decided on the loop's induction form (cursor or offset, symbolic entry size).",
+         "Exact decoding of all blocks, reads past the block's end and command-line splitting are not decided. Added: every iteration of the entry loop reaches the visitor (no entry is skipped) and ELF section headers are read only inside the loop bounded by numSections (nothing behind an empty table is touched); the strides are decided on the loop's induction form (cursor or offset, symbolic entry size). Round 5: the region type is an unsigned 32-bit value (entry-type-unsigned), so that the normalisation comparison covers the upper half of the range.",
     technique="comparison-set evaluation over interval representatives + SSA dominance + pointer provenance (taint) analysis",
     ref="DESIGN.md section 3, C10",
 )
@@ -222,12 +222,13 @@ ALL = ["C%02d" % i for i in range(1, 21)]
 
 # rules of a neighbouring property that this property's check evaluates as well (checker/imports.go)
 IMPORTS = {
-    "C01": "C02.R3 (exact replay of the early-boot allocations), C03.R1 (pool bitmap layout), C03.R2 (bad frees rejected)",
-    "C03": "C02.R3 (exact replay of the early-boot allocations), C01.R4 (complete bitmap scan, one bit encoding)",
-    "C05": "C07.R1 (reservations neither overlap nor wrap), C04.R1 (Map writes exactly the requested entry)",
+    "C01": "C02.R3 (exact replay of the early-boot allocations), C03.R1 (pool bitmap layout), C03.R2 (bad frees rejected), C10.R1/R2 (memory map decoded: every entry, at the bootloader's stride, unknown types reserved)",
+    "C02": "C10.R1/R2 (memory map decoded: every entry, at the bootloader's stride, unknown types reserved)",
+    "C03": "C02.R3 (exact replay of the early-boot allocations), C01.R4 (complete bitmap scan, one bit encoding), C10.R1/R2 (memory map decoded)",
+    "C05": "C07.R1 (reservations neither overlap nor wrap), C04.R1 (Map writes exactly the requested entry), C10.R5 non-empty-sections / section-reads-bounded (the ELF sections reported)",
     "C06": "C04.R1, C04.R2 (Map writes exactly the requested entry and invalidates it)",
     "C07": "C04.R6 (page count of the region helpers)",
-    "C09": "C08.R1-R3 (the spinlock itself), C03.R3 (bit changes paired with counter updates)",
+    "C09": "C08.R1-R3 (the spinlock itself), C03.R3 (bit changes paired with counter updates), C01.R4 (complete bitmap scan)",
     "C11": "C12.R4 (resolve passes bounded, progress counted and reset)",
     "C12": "C13.R5 (index bounds in ObjectTree.Find / findRelative)",
     "C18": "C17.R4 (buffer scrolled by exactly one line and blanked), C19.R1-R6 (the shipped consoles paint exactly the addressed cells)",
